@@ -6,7 +6,7 @@
    (record [leaves]); everything else is proved. *)
 From OxiVerif Require Import Base.Common Spec.Adam7 Spec.Sem Model.Types Model.Options Model.ScanLines Model.Interlace
   Model.BitDepth Model.Color Model.Palette Model.Reductions
-  Proofs.Bridge Proofs.PixelProofs Proofs.ImageLift Proofs.LiftReductions Proofs.LiftColor Proofs.LiftPalette Proofs.ReductionInv.
+  Proofs.Bridge Proofs.PixelProofs Proofs.ImageLift Proofs.LiftReductions Proofs.LiftColor Proofs.LiftPalette Proofs.LiftLines Proofs.LiftBits Proofs.ReductionInv.
 
 (* the invariant: well-formed and means [pic] *)
 Definition means (pic : picture) (i : image) : Prop := wf i /\ sem i = Some pic.
@@ -49,8 +49,6 @@ Qed.
 
 (* ---------------------------------------------------------------- what is still assumed *)
 Record leaves : Prop := {
-  leaf_expand : forall i r pic, means pic i -> expanded_bit_depth_to_8 i = Ok (Some r) -> means pic r;
-  leaf_depth : forall i r pic, means pic i -> reduced_bit_depth_8_or_less i = Ok (Some r) -> means pic r;
   leaf_interlace : forall i il r pic, means pic i -> change_interlacing i il = Ok (Some r) -> means pic r;
   leaf_battiato : forall i r pic, means pic i -> sorted_palette_battiato i = Ok (Some r) -> means pic r;
   leaf_mzeng : forall i r pic, means pic i -> sorted_palette_mzeng i = Ok (Some r) -> means pic r
@@ -70,7 +68,7 @@ Proof.
   - intros Ht. congruence.
   - intros _ i r Hr Hi. rewrite Hs in Hr. eapply reduced_16_to_8_means; eauto.
   - intros _ _ i r Hr [Hwf Hsem]. destruct (reduced_rgb_to_grayscale_sem _ _ _ Hwf Hr Hsem). split; auto.
-  - intros _ i r Hr Hi. eapply leaf_expand; eauto.
+  - intros _ i r Hr [Hwf Hsem]. destruct (expanded_bit_depth_to_8_sem _ _ _ Hwf Hr Hsem). split; auto.
   - intros _ i r Hr [Hwf Hsem]. rewrite Ha in Hr. destruct (reduced_palette_sem _ _ _ Hwf Hr Hsem). split; auto.
   - intros _ i r Hr [Hwf Hsem]. destruct (sorted_palette_sem _ _ _ Hwf Hr Hsem). split; auto.
   - intros _ i r Hr [Hwf Hsem]. rewrite Ha in Hr. destruct (reduced_alpha_channel_sem _ _ _ Hwf Hr Hsem). split; auto.
@@ -79,6 +77,6 @@ Proof.
     intros r Hr2. destruct (sorted_palette_sem _ _ _ W1 Hr2 S1). split; auto.
   - intros _ i r Hr Hi. eapply leaf_battiato; eauto.
   - intros _ i r Hr Hi. eapply leaf_mzeng; eauto.
-  - intros _ i r Hr Hi. eapply leaf_depth; eauto.
+  - intros _ i r Hr [Hwf Hsem]. destruct (reduced_bit_depth_8_or_less_sem _ _ _ Hwf Hr Hsem). split; auto.
   - intros il r _ Hr. eapply leaf_interlace; eauto.
 Qed.
